@@ -42,6 +42,8 @@ def gen_cases(tier, seed):
             "cfg": {"out": r.choice(["all", "all", "sinks", "sinks", "struct", "node"])},
         })
     out.extend(preempt.gen_descs(tier, seed, ID))  # deterministic single-preemption enumeration (vmon/preempt.py)
+    # two preemptions (lost-update shape); a join released twice shows as an ORDER violation only where a second join follows: more pairs there
+    out.extend(preempt.gen_descs2(tier, seed, ID, focus=("join_then",), pairs_quick=40, pairs_focus=300))
     for i in range(n // 8):
         # runs WITH a registry: the dependencies of a call that executes are the same (followed through everything that executes or is rebuilt
         # in the run; an up-to-date stored value is read from its store and cuts the path)
@@ -169,6 +171,8 @@ def run_case(desc):
         return run_registry(desc)
     if desc.get("mode") == "preempt1":
         return preempt.enumerate_case(desc, lambda R, ir: check_history(ir, R.H)[1])
+    if desc.get("mode") == "preempt2":
+        return preempt.enumerate_pairs(desc, lambda R, ir: check_history(ir, R.H)[1])
     if desc.get("mode") == "hubrace":
         import time
 
@@ -223,6 +227,8 @@ def finalize(agg, tier):
         reasons.append(f"only {c['joins_last_two_preds_on_different_threads']} joins had their last two predecessors end on different threads (need >= 50)")
     if c["preempt_holds_others_completed"] < 100:
         reasons.append("single-preemption enumeration: fewer than 100 holds during which the other predecessors completed their bookkeeping")
+    if c["preempt2_ta_ran_to_end_while_tb_held"] < 200:
+        reasons.append("two-preemption enumeration: fewer than 200 pairs in which the first worker ran on to the end while the second was held")
     if c["starts_checked"] < 1000:
         reasons.append("fewer than 1000 call starts were checked")
     if len(agg.sets.get("preemption_points_observed", ())) < 20:
